@@ -227,10 +227,19 @@ def r194(ctx) -> None:
              and any(isinstance(t, ast.Subscript)
                      and is_attr(t.value, '_filters', 'self')
                      and txt(t.slice) == p[2] for t in s.targets)]
-    ok = bool(moves) and all(
-        isinstance(s.value, ast.Subscript)
-        and is_attr(s.value.value, '_filters', 'self')
-        and txt(s.value.slice) == p[1] for s in moves)
+    def old_value(v) -> str | None:
+        """'index' for self._filters[old], 'pop' for self._filters.pop(old)"""
+        if isinstance(v, ast.Subscript) and is_attr(
+                v.value, '_filters', 'self') and txt(v.slice) == p[1]:
+            return 'index'
+        if isinstance(v, ast.Call) and call_name(v) == 'pop' and is_attr(
+                v.func.value, '_filters', 'self') and len(v.args) == 1 \
+                and txt(v.args[0]) == p[1]:
+            return 'pop'
+        return None
+    ok = bool(moves) and all(old_value(s.value) for s in moves)
+    pop_form = bool(moves) and all(old_value(s.value) == 'pop'
+                                   for s in moves)
     R.check(ok, r, r.node, 'rename: content is carried over unchanged',
             'rename does not store the old script bytes under the new name')
     # store-then-delete loses the script when both names are equal: that
@@ -259,8 +268,10 @@ def r194(ctx) -> None:
                 isinstance(m.stmt, (ast.Raise, ast.Return))
                 for m, lab in t.succ if lab == ('t' if at[0][1] else 'f')):
             refuse.append(t)
-    R.check(bool(dels) and bool(refuse) and all(
-        rcfg.dominated_by(d_, refuse) for d_ in dels), r, r.node,
+    # `_filters[new] = _filters.pop(old)` takes the value out BEFORE it
+    # stores it: with old == new the script is put back, nothing is lost
+    R.check(pop_form or (bool(dels) and bool(refuse) and all(
+        rcfg.dominated_by(d_, refuse) for d_ in dels)), r, r.node,
         'rename: old == new never reaches the delete',
         'the "target exists" refusal is weakened (extra conjunct) or '
         'missing and nothing else stops a rename onto the same name: '
